@@ -166,7 +166,7 @@ func (e *Engine) Generate(prop, tier string, seed uint64, run int) *sim.Plan {
 	case "C15":
 		w = weights{newbug: 6, edit: 16, commit: 2, push: 10, pull: 12, remove: 3, restart: 2, identmut: 2, cli: 34}
 	case "C14":
-		w = weights{newbug: 10, edit: 12, commit: 2, push: 14, pull: 16, fetch: 3, remove: 16, restart: 2, identmut: 2}
+		w = weights{newbug: 10, edit: 12, commit: 2, push: 14, pull: 14, fetch: 8, remove: 16, restart: 2, identmut: 2}
 	case "C11":
 		w = weights{newbug: 8, edit: 30, commit: 6, push: 14, pull: 18, fetch: 1, merge: 2, remove: 3, restart: 4, cachesize: 3, losecache: 2, identmut: 4}
 	case "C12":
